@@ -283,6 +283,7 @@ class Host(utils.EventEmitter):
         self.bigs = {}  # BIG Handle to BIS Handles
         self.link_ts_flags = {}  # TS_Flag for ISO links, by handle
         self.pending_command: hci.HCI_SyncCommand | hci.HCI_AsyncCommand | None = None
+        self.abandoned_commands: list[int] = []  # Opcodes still owed a response
         self.pending_response: (
             asyncio.Future[
                 hci.HCI_Command_Complete_Event | hci.HCI_Command_Status_Event
@@ -710,7 +711,10 @@ class Host(utils.EventEmitter):
                 self.pending_response, timeout=response_timeout
             )
             return response
-        except asyncio.TimeoutError:
+        except (asyncio.TimeoutError, asyncio.CancelledError):
+            # The response may still come: it must not be taken for the response to
+            # a later command
+            self.abandoned_commands.append(command.op_code)
             raise
         except Exception:
             logger.exception(color("!!! Exception while sending command:", "red"))
@@ -1170,6 +1174,13 @@ class Host(utils.EventEmitter):
             if self.pending_command is None:
                 logger.warning('!!! pending_command is None ')
             elif self.pending_command.op_code != event.command_opcode:
+                if event.command_opcode in self.abandoned_commands:
+                    # Late response to a command whose sender gave up
+                    self.abandoned_commands.remove(event.command_opcode)
+                    logger.warning(
+                        f'!!! late response to 0x{event.command_opcode:X}, ignored'
+                    )
+                    return
                 logger.warning(
                     '!!! command result mismatch, expected '
                     f'0x{self.pending_command.op_code:X} but got '
@@ -1179,6 +1190,8 @@ class Host(utils.EventEmitter):
             self.pending_response.set_result(event)
         else:
             logger.warning('!!! no pending response future to set')
+            if event.command_opcode in self.abandoned_commands:
+                self.abandoned_commands.remove(event.command_opcode)
             if event.num_hci_command_packets and self.command_semaphore.locked():
                 self.command_semaphore.release()
 
